@@ -189,7 +189,10 @@ theorem v2t_C15_guard_dropped_counterexample :
     (stepGW { Guards.source with waveRange := fun _ => false } exOps .s2_21_2 exDb
       (.update 1 { exSnap with sampleRate := some 0x7ff0000000000000 })).2 = .ub .float_cast_range ∧
     (stepGW { Guards.source with bpmInRange := fun b _ _ => b } exOps .s2_21_2 exDb
-      (.update 1 { exSnap with bpm := some 0x7fe0000000000000 })).2 = .ub .float_cast_range := by
+      (.update 1 { exSnap with bpm := some 0x7fe0000000000000 })).2 = .ub .float_cast_range ∧
+    -- track_utils.hpp: `qn == 0` replaced by `!(sample_rate > 0)`: a rate of 100 Hz divides by zero
+    (stepGW { Guards.source with utilOvwZero := fun n _ r => n == 0 || !(F64.lt F64.zero r) } exOps .s2_21_2 exDb
+      (.update 1 { exSnap with sampleRate := some 0x4059000000000000 })).2 = .ub .div_zero := by
   decide +kernel
 
 /-! ### non-vacuity -/
